@@ -1,7 +1,12 @@
 """C01 — A commit records exactly the selected working-tree state.
 
 World: a 2a branch + repository on a simulated memory store and a lightweight checkout of
-it in a real directory (control files through the storage seam, `sim+file://`).  One run =
+it in a real directory (control files through the storage seam, `sim+file://`); or, in a
+third of the runs, a heavyweight checkout (local branch + repository + tree in the
+directory, all through the seam) BOUND to a master that lives alone on the memory store, so
+that the fault points of the target commit also cover the upload to the master.  Half of
+the runs use a namespace of look-alike sibling names ('a', 'ab', 'a-2/x', 'a/x': string
+prefixes without a path boundary).  One run =
 a seeded, model-generated sequence of treesim operations (user edits, add / mkdir / remove
 / rename / move / chmod / symlink / kind change / revert) interleaved with 1-5 commits,
 each with a seeded choice of `specific_files` / `exclude` (changed and unchanged paths,
@@ -76,6 +81,7 @@ ASSUMPTIONS = [
     "selections which need entries outside the selection (new / renamed parents that are not selected: treesim._selection_closed), or which enter a state listed in treesim.GUARDS (reported dirstate path-filter defects) are not generated and not judged: the model declines them and the commit is not executed",
     "selections whose literal application is not a tree that an inventory delta can express (an unselected entry left without parent, two entries on one name, a selected entry whose unselected parent was renamed, a directory deleted with an unselected child) may be refused (breezy raises InconsistentDelta from finish_inventory): such a commit is executed only as the target, fault-free, and judged only by 'a commit that raises changes nothing'; when breezy accepts it the recorded content is not judged (probe unappliable_selection_accepted)",
     "a specific_files path that is versioned in neither tree must be refused (PathsNotVersionedError) with nothing changed; exclude paths are not validated by breezy and unversioned exclude paths are simply ignored",
+    "bound world: after a successful commit master tip == local tip == new revision and the master's repository holds the same tree; when commit raised, the local tip, the tree basis (== local tip), the pending changes and the master tip must be unchanged, except that a master which moved after ITS OWN tip write while the local branch stayed is the documented master-first order (C23) and is accepted; a local tip written before the master's is reported under its own phase key (tip-written-before-master); a revision left visible in the local or the master's repository by a committed write group is the recorded finding pack-names-done:revision-visible",
     "commits run with explicit rev_id / timestamp / committer, allow_pointless=True, no pending merges (selected-file commits of merges are refused by design)",
     "set-up operations are not judged here (C09 does); if the real tree and the model disagree before a commit (probe presync_mismatch) the run stops without verdict",
     "fault model: exactly one storage operation (read or write, of the branch, the repository or the checkout's control files) raises before being applied; dirstate and user files have no seam; NoSuchFile is not injected (breezy legitimately reads it as 'absent')",
@@ -281,11 +287,16 @@ def propose_commit(rng, g, m, full=False, bad=False, maybe=False):
     ch = sorted(changed_paths(m))
     dirs = sorted({a for p in ch for a in T.ancestors(p) if a})
 
+    alike = lookalikes(m, pool)
+
     def pick(k):
         out = set()
         for _ in range(k):
             r = rng.random()
-            src = ch if (ch and r < 0.5) else dirs if (dirs and r < 0.75) else pool
+            if alike and r < 0.4:
+                out.add(rng.choice(alike))
+                continue
+            src = ch if (ch and r < 0.65) else dirs if (dirs and r < 0.85) else pool
             out.add(rng.choice(src))
         return sorted(out)
 
@@ -313,8 +324,50 @@ def propose_commit(rng, g, m, full=False, bad=False, maybe=False):
     return first_ok or base
 
 
+LOOKALIKE = ["a", "ab", "a-2", "a.b", "b", "ba", "c"]
+
+
+def lookalike_namespace(rng):
+    """4-7 paths of depth <= 3 whose sibling names share string prefixes without a "/"
+    boundary ('a' vs 'ab' vs 'a-2/x' vs 'a/x'): selecting or excluding one of them must not
+    catch the others."""
+    want = rng.randint(4, 7)
+    out = []
+    tries = 0
+    while len(out) < want and tries < 100:
+        tries += 1
+        parents = [""] + [p for p in out if p.count("/") < 2]
+        par = rng.choice(parents)
+        if out and rng.random() < 0.5:
+            # a sibling that extends the name of an existing path
+            base = rng.choice(out)
+            par = T.parent(base)
+            stem = T.posixpath.basename(base)
+            cands = [n for n in LOOKALIKE if n != stem and n.startswith(stem)] or LOOKALIKE
+            name = rng.choice(cands)
+        else:
+            name = rng.choice(LOOKALIKE)
+        p = par + "/" + name if par else name
+        if p not in out:
+            out.append(p)
+    return sorted(out)
+
+
+def lookalikes(m, pool):
+    """Paths of `pool` that are a strict string prefix of a changed path without being its
+    ancestor (and the other way round): the interesting members of a selection."""
+    ch = changed_paths(m)
+    out = set()
+    for p in pool:
+        for q in ch:
+            if p != q and not T.inside(p, q) and not T.inside(q, p) and (q.startswith(p) or p.startswith(q)):
+                out.add(p)
+    return sorted(out)
+
+
 def generate(rng, tier):
-    names = T.make_namespace(rng)
+    world_kind = rng.choice(["light", "light", "bound"])
+    names = lookalike_namespace(rng) if rng.random() < 0.5 else T.make_namespace(rng)
     weights = {k: rng.choice([0, 1, 1, 2, 3]) * v if k not in ("write", "add") else rng.choice([1, 2, 3]) * v for k, v in EDIT_WEIGHTS.items()}
     pool = [k for k, w in sorted(weights.items()) for _ in range(int(w))]
     m = T.MTree("bzr")
@@ -359,7 +412,7 @@ def generate(rng, tier):
         ops.append(target)
     else:
         push(target)
-    return {"names": names, "weights": weights, "ops": ops, "sample_seed": rng.randrange(1 << 30), "err": rng.choice(ERRS)}
+    return {"world": world_kind, "names": names, "weights": weights, "ops": ops, "sample_seed": rng.randrange(1 << 30), "err": rng.choice(ERRS)}
 
 
 # --------------------------------------------------------------------------------------
@@ -402,17 +455,39 @@ def store_restore(snap):
 mask_log = cosim.mask_log
 
 
-def build_world(sim):
+MASTER = "master"
+
+
+class Loc(str):
+    """URL of the branch the tree commits to; `.master`: URL of the master it is bound to
+    (None for the lightweight-checkout world); `.store`: URL of the memory store."""
+
+    master = None
+    store = None
+
+
+def build_world(sim, kind="light"):
     root = os.path.join(os.environ["VERIF_SCRATCH"], "w", "t")
     mask_log(sim, root)
     url = world.new_store(STORE)
-    b = storesim.make_branch(url + BRANCH, "2a")
-    os.makedirs(root)
-    wt = b.create_checkout("sim+file://" + root, lightweight=True)
-    with wt.lock_write():
-        wt.set_root_id(T.ROOT_ID)
-    del wt, b
-    return url + BRANCH, root
+    if kind == "bound":
+        # heavyweight checkout: local branch + repository + tree in the directory (through
+        # sim+file://), bound to a master that lives alone on the memory store
+        master = storesim.make_branch(url + MASTER, "2a")
+        cosim.heavy_checkout(master, root)
+        del master
+        loc = Loc("sim+file://" + root)
+        loc.master = url + MASTER
+    else:
+        b = storesim.make_branch(url + BRANCH, "2a")
+        os.makedirs(root)
+        wt = b.create_checkout("sim+file://" + root, lightweight=True)
+        with wt.lock_write():
+            wt.set_root_id(T.ROOT_ID)
+        del wt, b
+        loc = Loc(url + BRANCH)
+    loc.store = url
+    return loc, root
 
 
 def do_commit(tree, op):
@@ -429,14 +504,22 @@ def do_commit(tree, op):
     )
 
 
-def branch_state(burl):
-    """(revno, tip, sorted listed revisions) read by fresh objects."""
-    storesim.clear_caches()
-    b = storesim.open_branch(burl)
+def _one_branch_state(url):
+    b = storesim.open_branch(url)
     with b.lock_read():
         revno, tip = b.last_revision_info()
         revs = sorted(r.decode() for r in b.repository.all_revision_ids())
     return [revno, tip.decode(), revs]
+
+
+def branch_state(burl):
+    """[revno, tip, sorted listed revisions] read by fresh objects; for a bound branch
+    followed by the same three values of the master."""
+    storesim.clear_caches()
+    out = _one_branch_state(burl)
+    if getattr(burl, "master", None):
+        out += _one_branch_state(burl.master)
+    return out
 
 
 def tree_pending(root):
@@ -475,16 +558,28 @@ def presync(sim, root, m):
 def success_oracle(sim, burl, root, m_before, m_after, op, pre, site, fk="none"):
     """The commit `op` went through: compare everything with the model.  `pre` =
     branch_state before the commit."""
+    pre = list(pre)
 
     def fail(tag, detail):
         sim.fail(tag, [tag, fk, site], "commit %s: %s" % (json.dumps({k: op.get(k) for k in ("rev", "paths", "exclude")}), detail))
 
     rev = op["rev"]
-    revno, tip, revs = branch_state(burl)
+    revno, tip, revs = branch_state(burl)[:3]
     if (revno, tip) != (pre[0] + 1, rev):
         fail("tip_advanced", "branch is at (%r, %r); expected (%r, %r)" % (revno, tip, pre[0] + 1, rev))
     if revs != sorted(set(pre[2]) | {rev}):
         fail("revisions_listed", "listed revisions %s" % _diff(set(pre[2]) | {rev}, revs))
+    if getattr(burl, "master", None):
+        mrevno, mtip, mrevs = _one_branch_state(burl.master)
+        if (mrevno, mtip) != (pre[3] + 1, rev):
+            fail("master_tip_advanced", "the master is at (%r, %r); expected (%r, %r) like the local branch" % (mrevno, mtip, pre[3] + 1, rev))
+        if rev not in mrevs:
+            fail("master_has_revision", "the master's repository does not list %s" % rev)
+        mb = storesim.open_branch(burl.master)
+        with mb.lock_read():
+            msnap = T.tree_snapshot(mb.repository.revision_tree(rev.encode()))
+        if {p: (fid, k, d, bool(x)) for p, (k, d, x, fid) in msnap.items()} != m_after.basis:
+            fail("recorded_tree", "revision tree in the master's repository differs from basis+selection")
     b = storesim.open_branch(burl)
     with b.lock_read():
         r = b.repository.get_revision(rev.encode())
@@ -519,20 +614,35 @@ def success_oracle(sim, burl, root, m_before, m_after, op, pre, site, fk="none")
 
 
 def unchanged_oracle(sim, burl, root, pre, pre_tree, op, site, fk, phase, raised):
-    """The commit raised: nothing may have changed."""
+    """The commit raised: nothing may have changed.  Returns "master-first" when the only
+    change is the documented outcome of a bound commit interrupted after the master took the
+    revision (the master is ahead, the local branch and the tree are untouched)."""
     what = "commit %s raised %s (%s)" % (json.dumps({k: op.get(k) for k in ("rev", "paths", "exclude")}), type(raised).__name__, str(raised)[:160])
-    revno, tip, revs = branch_state(burl)
+    now = branch_state(burl)
+    revno, tip, revs = now[:3]
+    bound = len(now) > 3
     s = None
+    detail = ""
     if (revno, tip) != (pre[0], pre[1]):
         s = "tip-moved" if tip in revs or tip == "null:" else "tip-dangling"
-    elif revs != pre[2]:
+    elif bound and (now[3], now[4]) != (pre[3], pre[4]) and phase != "master-tip-written":
+        # (a master that moved after ITS tip write, with the local branch untouched, is the
+        # master-first order C23 states; anything else that moves the master is not)
+        s = "master-tip-moved"
+    elif revs != pre[2] or (bound and now[5] != pre[5] and (now[3], now[4]) == (pre[3], pre[4])):
         s = "revision-visible"
+    if bound:
+        detail = "; master at (%r, %r) [before: (%r, %r)] listing %s" % (now[3], now[4], pre[3], pre[4], _diff(pre[5], now[5]))
     if s:
         where = phase if phase != "before-pack-names" else site
+        if where == "master-tip-written" and s == "revision-visible":
+            where = "pack-names-done"  # same cause: a committed write group is never taken back
+        if where == "master-pack-names-done":
+            where = "pack-names-done"
         sim.fail(
             "raise_leaves_unchanged",
             ["raise_leaves_unchanged", fk, "%s:%s" % (where, s)],
-            "%s at %s, yet the branch is at (%r, %r) [before: (%r, %r)] and the repository lists %s" % (what, site, revno, tip, pre[0], pre[1], _diff(pre[2], revs)),
+            "%s at %s, yet the branch is at (%r, %r) [before: (%r, %r)] and the repository lists %s%s" % (what, site, revno, tip, pre[0], pre[1], _diff(pre[2], revs), detail),
         )
     try:
         parents, ch = tree_pending(root)
@@ -542,11 +652,21 @@ def unchanged_oracle(sim, burl, root, pre, pre_tree, op, site, fk, phase, raised
         sim.fail("raise_keeps_pending", ["raise_keeps_pending", fk, site + ":parents"], "%s; tree parents now %r, before %r" % (what, parents, pre_tree[0]))
     if ch != pre_tree[1]:
         sim.fail("raise_keeps_pending", ["raise_keeps_pending", fk, site + ":changes"], "%s; pending changes differ: %s" % (what, _diff(pre_tree[1], ch)))
+    basis = parents[0] if parents else "null:"
+    if basis != tip:
+        sim.fail("raise_keeps_pending", ["raise_keeps_pending", fk, site + ":tree-basis-vs-tip"], "%s; the tree is based on %r but its branch is at %r" % (what, basis, tip))
+    if bound and (now[3], now[4]) != (pre[3], pre[4]):
+        sim.probe("master_first_outcome")
+        return "master-first"
+    return None
 
 
 def break_locks(sim, burl, root):
     """What a user does after a crashed command: break-lock."""
-    for what, opener in (("branch", lambda: storesim.open_branch(burl)), ("tree", lambda: T.open_tree(root, "bzr"))):
+    openers = [("branch", lambda: storesim.open_branch(burl)), ("tree", lambda: T.open_tree(root, "bzr"))]
+    if getattr(burl, "master", None):
+        openers.insert(0, ("master", lambda: storesim.open_branch(burl.master)))
+    for what, opener in openers:
         try:
             opener().break_lock()
         except Exception as e:  # noqa: BLE001
@@ -554,30 +674,50 @@ def break_locks(sim, burl, root):
 
 
 class OpWatch:
-    """Records the storage operations of the commit and which milestones were passed."""
+    """Records the storage operations of the commit and which milestones were passed.
+    Bound commits: the order must be local write group, master write group, master tip,
+    local tip."""
 
-    def __init__(self, sim):
+    def __init__(self, sim, master_prefix=None):
         self.ops = []
+        self.master_prefix = master_prefix
         self.pack_names_done = False
+        self.master_pack_names_done = False
+        self.master_tip_written = False
         self.tip_written = False
-        self.tip_early = False
+        self.tip_early = None
         sim.monitors.append(self)
 
     def __call__(self, sim, actor, phase, op, path, extra):
+        on_master = self.master_prefix is not None and path.startswith(self.master_prefix)
         if phase == "before":
-            self.ops.append([op, storesim.path_class(path)])
+            self.ops.append([op, ("master:" if on_master else "") + storesim.path_class(path)])
         elif op == "put":
             if path.endswith("/repository/pack-names"):
-                self.pack_names_done = True
+                if on_master:
+                    self.master_pack_names_done = True
+                else:
+                    self.pack_names_done = True
             elif path.endswith("/branch/last-revision"):
-                self.tip_written = True
-                if not self.pack_names_done:
-                    self.tip_early = True
+                if on_master:
+                    self.master_tip_written = True
+                else:
+                    self.tip_written = True
+                    if not self.pack_names_done:
+                        self.tip_early = "tip-written-before-pack-names"
+                    elif self.master_prefix is not None and not self.master_tip_written:
+                        self.tip_early = "tip-written-before-master"
 
     def phase(self):
         if self.tip_early:
-            return "tip-written-before-pack-names"
-        return "tip-written" if self.tip_written else "pack-names-done" if self.pack_names_done else "before-pack-names"
+            return self.tip_early
+        if self.tip_written:
+            return "tip-written"
+        if self.master_tip_written:
+            return "master-tip-written"
+        if self.master_pack_names_done:
+            return "master-pack-names-done"
+        return "pack-names-done" if self.pack_names_done else "before-pack-names"
 
 
 def run_target(sim, plan, burl, root, m, op, cls, fault, label):
@@ -592,7 +732,7 @@ def run_target(sim, plan, burl, root, m, op, cls, fault, label):
         pre_tree = tree_pending(root)
         pending = bool(pre_tree[1])
         tree = T.open_tree(root, "bzr")
-        watch = OpWatch(sub)
+        watch = OpWatch(sub, "/" + MASTER + "/" if getattr(burl, "master", None) else None)
         sub.arm([fault] if fault else [])
         raised = None
         try:
@@ -644,9 +784,9 @@ def run_target(sim, plan, burl, root, m, op, cls, fault, label):
                     sub.fail("refusal_kind", ["refusal_kind", "none", type(raised).__name__], "commit %s was refused with %r" % (json.dumps(op), raised))
                 sub.probe("refused")
             sub.probe("raised_in_" + phase)
-            unchanged_oracle(sub, burl, root, pre, pre_tree, op, site, fk, phase, raised)
+            outcome = unchanged_oracle(sub, burl, root, pre, pre_tree, op, site, fk, phase, raised)
             sub.nontrivial = pending and fired
-            if fired and cls == "ok":
+            if fired and cls == "ok" and outcome is None:
                 # a new process retries
                 sub.restart_main()
                 break_locks(sub, burl, root)
@@ -693,7 +833,7 @@ def _execute(sim, plan):
     sim.disarm()
     world.setup_sim(sim)
     base = os.environ["VERIF_SCRATCH"]
-    burl, root = build_world(sim)
+    burl, root = build_world(sim, plan.get("world", "light"))
     W, W0 = os.path.join(base, "w"), os.path.join(base, "w0")
     m = T.MTree("bzr")
     ops = plan["ops"]
@@ -765,11 +905,12 @@ def _execute(sim, plan):
         sim.event("presync-mismatch", target)
         return
     sim.state_seen(m.digest())
+    sim.probe("world_" + plan.get("world", "light"))
     sim.probe("target_" + ("refused" if bad else "unappliable" if cls == "maybe" else "full" if (op.get("paths") is None and not op.get("exclude")) else "partial"))
     if op.get("exclude"):
         sim.probe("target_with_exclude")
     shutil.copytree(W, W0, symlinks=True)
-    snap = store_snapshot(burl[: -len(BRANCH)])
+    snap = store_snapshot(burl.store)
 
     def point(fault, label):
         from simkit.sim import CTX
@@ -844,6 +985,10 @@ def shrink_candidates(plan):
     from simkit.shrink import generic_candidates
 
     ops = plan.get("ops", [])
+    if plan.get("world") == "bound":
+        p = copy.deepcopy(plan)
+        p["world"] = "light"
+        yield p
     commits = [i for i, op in enumerate(ops) if op["o"] == "commit"]
     # the target commit stays; everything else may go
     if commits:
@@ -913,11 +1058,11 @@ def warm():
     tmp = tempfile.mkdtemp(prefix="verif-warm-", dir="/dev/shm")
     _INPROC[0] = True
     try:
-        for j, only in enumerate((None, [3], [40], [60])):
+        for j, (kind, only) in enumerate((("light", None), ("light", [3]), ("light", [40]), ("light", [60]), ("bound", None), ("bound", [70]), ("bound", [120]), ("bound", [150]))):
             sc = os.path.join(tmp, "s%d" % j)
             os.makedirs(os.path.join(sc, "home"))
             os.environ.update(VERIF_SCRATCH=sc, BRZ_HOME=os.path.join(sc, "home"), HOME=os.path.join(sc, "home"))
-            plan = {"ops": copy.deepcopy(WARM_OPS), "sample_seed": 1, "err": "transport"}
+            plan = {"world": kind, "ops": copy.deepcopy(WARM_OPS), "sample_seed": 1, "err": "transport"}
             if only:
                 plan["only"] = only
             sim = Sim(1, plan, step_cap=10**6)
